@@ -20,6 +20,20 @@ pub proof fn axiom_file_path(f: Seq<char>)
 {
 }
 
+// the text a symbolic link holds
+pub uninterp spec fn link_target(path: Seq<char>) -> Seq<char>;
+// index of the last '/' of a path (-1 when there is none), and the directory part in front of it
+pub open spec fn last_sl(p: Seq<char>) -> int
+    decreases p.len()
+{
+    if p.len() == 0 { -1 } else if p.last() == '/' { p.len() - 1 } else { last_sl(p.drop_last()) }
+}
+pub open spec fn dir_part(p: Seq<char>) -> Seq<char> { if last_sl(p) < 0 { Seq::empty() } else { p.subrange(0, last_sl(p)) } }
+// (directory, target text) are those of some symbolic link that itself may be read
+pub open spec fn resolves_a_served_link(dir: Seq<char>, target: Seq<char>) -> bool {
+    exists|l: Seq<char>| fs_allowed(l) && fs_is_symlink(l) && #[trigger] dir_part(l) == dir && link_target(l) == target
+}
+
 pub open spec fn is_sep(c: char) -> bool { c == '/' || c == '\\' }
 
 // a ".." path segment starting at index i
@@ -175,11 +189,14 @@ impl FileExt {
     #[verifier::external_body]
     pub fn symlink_points_to(path: &str) -> (r: Result<String, String>)
         requires fs_allowed(path@),
+        ensures r.is_ok() ==> r.unwrap()@ == link_target(path@),
     { unimplemented!() }
 
-    // the target of a link: allowed by the symlink exemption of the property (the owner of the served directory placed the link)
+    // the target of a link: allowed by the symlink exemption of the property (the owner of the served directory placed the link) -
+    // but only when it is resolved the way the link means it: against the directory that holds the link, with the text the link holds
     #[verifier::external_body]
     pub fn resolve_symlink_path(symlink_directory: &str, symlink_points_to: &str) -> (r: Result<String, String>)
+        requires resolves_a_served_link(symlink_directory@, symlink_points_to@),
         ensures r.is_ok() ==> via_symlink(r.unwrap()@),
     { unimplemented!() }
 
